@@ -746,8 +746,9 @@ OPTS = {
 
 
 @st.composite
-def cases(draw, modes=None, triggers=None):
-    """triggers: {feature: bool} - which known-finding triggers may be generated"""
+def cases(draw, modes=None, triggers=None, rot=0):
+    """triggers: {feature: bool} - which known-finding triggers may be generated; rot rotates the option value lists (the
+    minimal example of a shard then uses another option value than the shard with the same first mode)"""
     mode = draw(st.sampled_from(modes or MODES))
     # drawn as "switched off": Hypothesis' first (minimal) example of every shard then has all features ON instead of none
     feat = {f: not draw(st.booleans()) for f in FEATURES[mode]}
@@ -757,6 +758,6 @@ def cases(draw, modes=None, triggers=None):
         feat[t] = bool(want and (triggers or {}).get(t))
         if want and not feat[t]:
             avoided.append(t)
-    opts = {k: draw(st.sampled_from(v)) for k, v in OPTS[mode].items()}
+    opts = {k: draw(st.sampled_from(v[rot % len(v):] + v[:rot % len(v)])) for k, v in OPTS[mode].items()}
     stream = draw(st.lists(st.integers(0, 999), min_size=8, max_size=40))
     return {'mode': mode, 'feat': feat, 'opts': opts, 'stream': stream, 'avoided': avoided}
